@@ -9,6 +9,7 @@ import (
 	"os"
 	"path"
 	"path/filepath"
+	"sort"
 	"strings"
 	"sync"
 	"time"
@@ -113,12 +114,21 @@ func (db *SingleBucketBackend) ListBucket(bucket string, prefix *gofakes3.Prefix
 }
 
 func (db *SingleBucketBackend) getBucketWithFilePrefixLocked(bucket string, prefixPath, prefixPart string) (*gofakes3.ObjectList, error) {
+	response := gofakes3.NewObjectList()
+
+	if prefixPath != "" {
+		// A prefix that names no directory matches no keys.
+		if isDir, err := afero.DirExists(db.fs, filepath.FromSlash(prefixPath)); err != nil {
+			return nil, err
+		} else if !isDir {
+			return response, nil
+		}
+	}
+
 	dirEntries, err := afero.ReadDir(db.fs, filepath.FromSlash(prefixPath))
 	if err != nil {
 		return nil, err
 	}
-
-	response := gofakes3.NewObjectList()
 
 	for _, entry := range dirEntries {
 		object := entry.Name()
@@ -185,6 +195,10 @@ func (db *SingleBucketBackend) getBucketWithArbitraryPrefixLocked(bucket string,
 	}); err != nil {
 		return nil, err
 	}
+
+	// Walk visits a directory before a sibling whose name sorts between
+	// "dir" and "dir/" (e.g. "a/b" before "a b"); S3 lists in key order.
+	sort.Slice(response.Contents, func(i, j int) bool { return response.Contents[i].Key < response.Contents[j].Key })
 
 	return response, nil
 }
